@@ -29,6 +29,8 @@ class Opaque(str):
     def __eq__(self, other):
         if isinstance(other, Opaque):
             return self.key == other.key
+        if isinstance(other, str):
+            return False      # a message formatted from concrete values only is real text: never the same message
         raise HarnessError("logic depends on formatted text (==)")
 
     def __ne__(self, other):
